@@ -80,3 +80,87 @@ def default_table() -> str:
     return ('From VV Require Import Model.Base Model.Pattern Model.CodonTable.\nLocal Open Scope string_scope.\n'
             'Definition fact_extracted : bool := true.\n'
             'Definition default_rows : list crow := [\n' + ';\n'.join(rows) + '].\n')
+
+
+def _names(node):
+    return node.id if isinstance(node, ast.Name) else None
+
+
+@extractor('MetaFields')
+def meta_fields() -> str:
+    tree = ast.parse(_src('meta_table.py'))
+    fields = None
+    writer = noop = None
+    for node in tree.body:
+        if isinstance(node, ast.Assign) and any(isinstance(t, ast.Name) and t.id == 'META_CSV_FIELDS' for t in node.targets):
+            if not isinstance(node.value, ast.List) or not all(isinstance(e, ast.Constant) and isinstance(e.value, str) for e in node.value.elts):
+                raise FactError('META_CSV_FIELDS is not a list of string literals')
+            fields = [e.value for e in node.value.elts]
+        if isinstance(node, ast.FunctionDef) and node.name == 'write_meta_record':
+            writer = node
+        if isinstance(node, ast.FunctionDef) and node.name == 'write_no_op_meta_record':
+            noop = node
+    if fields is None or writer is None or noop is None:
+        raise FactError('META_CSV_FIELDS / write_meta_record / write_no_op_meta_record not found')
+    params = [a.arg for a in writer.args.args][1:]
+    order = []
+    for st in writer.body:
+        if not isinstance(st, ast.Expr) or not isinstance(st.value, ast.Call):
+            raise FactError('unexpected statement in write_meta_record')
+        call = st.value
+        fn = call.func
+        if isinstance(fn, ast.Name) and fn.id == '_write_field':
+            if len(call.args) != 2 or _names(call.args[0]) != 'fh':
+                raise FactError('unexpected _write_field call')
+            x = call.args[1]
+            if isinstance(x, ast.Call) and isinstance(x.func, ast.Name) and x.func.id == 'str' and len(x.args) == 1:
+                x = x.args[0]
+            if _names(x) is None:
+                raise FactError('unexpected _write_field argument')
+            order.append(x.id)
+        elif isinstance(fn, ast.Attribute) and fn.attr == 'write' and _names(fn.value) == 'fh':
+            x = call.args[0]
+            if isinstance(x, ast.Constant) and x.value == '\n':
+                order.append('<newline>')
+            elif _names(x):
+                order.append(x.id)
+            else:
+                raise FactError('unexpected fh.write argument')
+        else:
+            raise FactError('unexpected call in write_meta_record')
+    # write_no_op_meta_record: a single call of write_meta_record
+    calls = [st.value for st in noop.body if isinstance(st, ast.Expr) and isinstance(st.value, ast.Call)]
+    if len(calls) != 1 or _names(calls[0].func) != 'write_meta_record' or calls[0].keywords:
+        raise FactError('write_no_op_meta_record is not a single positional call of write_meta_record')
+    noop_args = []
+    for a in calls[0].args[1:]:
+        if isinstance(a, ast.Name):
+            noop_args.append(a.id)
+        elif isinstance(a, ast.Constant):
+            noop_args.append(f'<{a.value!r}>')
+        elif isinstance(a, ast.UnaryOp) and isinstance(a.op, ast.USub) and isinstance(a.operand, ast.Constant):
+            noop_args.append(f'<-{a.operand.value!r}>')
+        else:
+            raise FactError('unexpected argument in write_no_op_meta_record')
+    # README: metadata table columns |Index|Field|...
+    readme = open(os.path.join(common.REPO, 'README.md')).read()
+    sec = readme.split('### Oligonucleotide metadata file', 1)[1].split('\n### ', 1)[0]
+    cols = re.findall(r'^\|(\d+)\|`([^`]+)`\|', sec, flags=re.M)
+    if [int(i) for i, _ in cols] != list(range(1, len(cols) + 1)) or not cols:
+        raise FactError('README metadata column table not recognised')
+    # VCF INFO tags: declared in the header vs used in the records
+    vw = _src('vcf_writer.py')
+    declared = re.findall(r"\('(SGE_\w+)', 'String', 1\)", vw)
+    used = sorted(set(re.findall(r"vcf_info\['(SGE_\w+)'\]", vw)) | set(re.findall(r"'(SGE_\w+)':", vw)))
+    readme_tags = re.findall(r'^\|`(SGE_\w+)`\|', readme, flags=re.M)
+    sl = lambda l: '[' + '; '.join(coq_str(x) for x in l) + ']'
+    return ('From Coq Require Import String List.\nImport ListNotations.\nLocal Open Scope string_scope.\n'
+            'Definition fact_extracted : bool := true.\n'
+            f'Definition meta_csv_fields : list string := {sl(fields)}.\n'
+            f'Definition readme_fields : list string := {sl([c for _, c in cols])}.\n'
+            f'Definition writer_params : list string := {sl(params)}.\n'
+            f'Definition write_order : list string := {sl(order)}.\n'
+            f'Definition noop_args : list string := {sl(noop_args)}.\n'
+            f'Definition vcf_declared_tags : list string := {sl(declared)}.\n'
+            f'Definition vcf_used_tags : list string := {sl(used)}.\n'
+            f'Definition readme_vcf_tags : list string := {sl(readme_tags)}.\n')
